@@ -12,6 +12,7 @@ import (
 // C03: only shareable responses are stored; labels are truthful.
 
 type c03Case struct {
+	Drop   bool        `json:"upstream_drops_connection"`
 	Method string      `json:"method"`
 	URI    string      `json:"uri"`
 	Status int         `json:"status"`
@@ -122,6 +123,16 @@ func c03Reference(method string, header [][2]string) (verdict, reason string) {
 	}
 	if hasAge {
 		a, err := strconv.ParseFloat(strings.TrimSpace(age), 64)
+		allDigits := age != ""
+		for _, ch := range age {
+			if ch < '0' || ch > '9' {
+				allDigits = false
+			}
+		}
+		if allDigits && a > 9e18 {
+			// a huge but well-formed Age is an age: the response is older than any lifetime
+			return "unshareable", "age-consumes-lifetime"
+		}
 		if err != nil || a < 0 || strings.ContainsAny(age, ".eE+") || a > 9e18 {
 			// the statement does not say what an invalid Age means; with Age ignored it would be shareable
 			return "ambiguous", "invalid-age"
@@ -241,6 +252,12 @@ func c03Gen(rnd *rand.Rand, i int) c03Case {
 	if rnd.Intn(5) == 0 {
 		c.Burst = 3
 	}
+	if c.Method != "GET" && c.Method != "HEAD" && c.Method != "OPTIONS" && rnd.Intn(6) == 0 {
+		// (Go's transport re-sends GET, HEAD, OPTIONS and TRACE after a dropped connection by itself; that is not judged)
+		// the upstream reads the request and drops the connection: still exactly one contact
+		c.Drop = true
+		c.Burst = 1
+	}
 	c.Share, c.Reason = c03Reference(c.Method, c.Header)
 	c.Class = c.Share
 	if c.Reason != "" {
@@ -276,6 +293,21 @@ func c03Run(r *hx.Run, w *W, c c03Case) {
 	}
 	r.Eval(1)
 	r.Add("class_"+c.Class, 1)
+	if c.Drop {
+		r.Add("upstream_connection_drops_on_non_get", 1)
+		for _, res := range all {
+			if n := contacts(res); n != 1 {
+				r.Violate("non_get_not_forwarded_once", map[string]string{"method": c.Method, "fault": "upstream_drops_connection"}, fmt.Sprintf("%s request whose upstream dropped the connection was forwarded %d times", c.Method, n), map[string]interface{}{"results": briefs(all)}, c)
+				return
+			}
+			if res.Err == nil && res.Status < 400 {
+				r.Violate("status_altered", nil, fmt.Sprintf("status %d although the upstream never answered", res.Status), map[string]interface{}{"results": briefs(all)}, c)
+				return
+			}
+		}
+		r.Distinct("drop|" + c.Method)
+		return
+	}
 	wit := func() interface{} {
 		return map[string]interface{}{"results": briefs(all), "upstream_contacts": len(fetches)}
 	}
@@ -356,7 +388,7 @@ func c03(r *hx.Run) {
 	var cur c03Case
 	w.Farm.SetScript(func(f *hx.Fetch) *hx.Reply {
 		c := cur
-		rep := &hx.Reply{Status: c.Status, Header: c.Header, Body: hx.IdentBody(f, 30, "text")}
+		rep := &hx.Reply{Status: c.Status, Header: c.Header, Body: hx.IdentBody(f, 30, "text"), Drop: c.Drop}
 		return rep
 	})
 	n := r.Pick(3000, 60000)
